@@ -1,6 +1,8 @@
 package families
 
 import (
+	"k8s.io/apimachinery/pkg/api/resource"
+	corev1 "k8s.io/api/core/v1"
 	"strings"
 	"fmt"
 
@@ -173,11 +175,81 @@ func extScenarios(tier string) []clustermc.Scenario {
 	return out
 }
 
+// podShapeScenarios: what a pod asks for is max(sum of app containers, largest init container) + pod
+// overhead (RuntimeClass) - pods with init containers and / or overhead next to plain ones on nodes whose
+// free CPU / memory lies between the possible readings of that formula.
+func podShapeScenarios(tier string) []clustermc.Scenario {
+	q := func(cpu, mem string) corev1.ResourceList {
+		return corev1.ResourceList{corev1.ResourceCPU: resource.MustParse(cpu), corev1.ResourceMemory: resource.MustParse(mem)}
+	}
+	initC := func(cpu, mem string) func(p *corev1.Pod) {
+		return func(p *corev1.Pod) {
+			p.Spec.InitContainers = append(p.Spec.InitContainers, corev1.Container{Name: "init", Image: "img", Resources: corev1.ResourceRequirements{Requests: q(cpu, mem), Limits: q(cpu, mem)}})
+		}
+	}
+	overhead := func(cpu, mem string) func(p *corev1.Pod) {
+		return func(p *corev1.Pod) { p.Spec.Overhead = q(cpu, mem) }
+	}
+	both := func(fs ...func(p *corev1.Pod)) func(p *corev1.Pod) {
+		return func(p *corev1.Pod) {
+			for _, f := range fs {
+				f(p)
+			}
+		}
+	}
+	app := world.Shape{CPUm: 1000, MemMi: 1024}
+	one := func(tag, st string, mut func(p *corev1.Pod)) menuItem {
+		node := ""
+		if st != "" {
+			node = "n1"
+		}
+		return menuItem{tag: tag, queue: "qa", pc: "p50", pods: []world.PodSpec{{Shape: app, State: st, Node: node, Mutate: mut}}}
+	}
+	menu := []menuItem{
+		one("pend-plain", "", nil),
+		one("pend-init3", "", initC("3", "3Gi")),
+		one("pend-ovh1", "", overhead("1", "1Gi")),
+		one("pend-init3+ovh1", "", both(initC("3", "3Gi"), overhead("1", "1Gi"))),
+		one("pend-init2+ovh2", "", both(initC("2", "2Gi"), overhead("2", "2Gi"))),
+		one("run-plain", world.StRunning, nil),
+		one("run-init3+ovh1", world.StRunning, both(initC("3", "3Gi"), overhead("1", "1Gi"))),
+		one("term-plain", world.StTerminating, nil),
+	}
+	lays := []nodeLayout{
+		{"shape-1n-cpu4", []world.NodeOpt{{Name: "n1", CPU: "4", Mem: "4Gi", Pods: 110, GPUs: 1, GPUMemMiB: 40000}}},
+		{"shape-1n-cpu5", []world.NodeOpt{{Name: "n1", CPU: "5", Mem: "5Gi", Pods: 110, GPUs: 1, GPUMemMiB: 40000}}},
+		{"shape-1n-cpu6", []world.NodeOpt{{Name: "n1", CPU: "6", Mem: "6Gi", Pods: 110, GPUs: 1, GPUMemMiB: 40000}}},
+	}
+	var out []clustermc.Scenario
+	cfgs := []schedrun.Config{{}}
+	for _, lay := range lays {
+		for _, pick := range multisetsUpTo(len(menu), 3) {
+			pending := false
+			tags := ""
+			for _, i := range pick {
+				if menu[i].pods[0].State == "" {
+					pending = true
+				}
+				tags += menu[i].tag + ","
+			}
+			if !pending {
+				continue
+			}
+			w := buildMenuWorld(lay, menu, pick)
+			if oracle.Oversubscribed(w) {
+				continue
+			}
+			out = append(out, clustermc.Scenario{Name: lay.tag + ":" + tags, World: w, Configs: cfgs})
+		}
+	}
+	return out
+}
+
 func C01() *clustermc.Family {
 	return &clustermc.Family{
 		Property:  "C01",
 		Scenarios: func(tier string) []clustermc.Scenario {
-			out := append(capScenarios(tier), extScenarios(tier)...)
+			out := append(append(capScenarios(tier), extScenarios(tier)...), podShapeScenarios(tier)...)
 			// fractional capacity that is only terminating must not be handed to a bind either: the share
 			// grammar's worlds with a terminating sharer, judged by the per-device clauses as well
 			for _, sc := range shareScenarios(tier) {
